@@ -16,11 +16,13 @@ from . import common, gensrc, srccheck
 from .common import Check, compile_font, pmap
 
 RULE = ("generated sources with one planted value at limit-1 / limit / limit+1 / far beyond: advance widths and heights (65534..131071, negative), "
-        "outline coordinates and successive differences (+-32767/8, 40000, 70000), component offsets, component 2x2 entries (1.99994, 2, -2, 2.0001, 3, -5), "
+        "outline coordinates and successive differences (+-32767/8, 40000, 70000), component offsets, component 2x2 entries on and off the diagonal (1.99994, 2, -2, 2.0001, 3, -5; "
+        "pure composites and glyphs with an outline of their own; default, --prefer-simple-glyphs=false and --flatten-components builds), "
         "kerning values, anchor coordinates, 16-bit global metrics, master-to-master deltas beyond 16 bits, unitsPerEm (15..100000), usWeightClass, "
         "usWidthClass; static, 1- and 2-axis; each compiled by the release and the debug binary; non-trivial = sources whose planted value lies "
         "beyond the limit")
 ORACLE_PROPS = ("C03", "C04", "C05", "C09", "C10", "C19")
+COMPONENT_ARGS = [[], ["--prefer-simple-glyphs=false"], ["--flatten-components"], ["--prefer-simple-glyphs=false", "--flatten-components"]]
 
 
 def classify(r, out):
@@ -38,8 +40,20 @@ def classify(r, out):
 def evaluate(bins, dbg, chk, i, source):
     wd = os.path.join(chk.scratch, f"e{i}")
     res = {"source": source, "wd": wd}
-    r1, o1, cmd = compile_font(bins["fontc"], source, wd, name="rel", threads=2, timeout=900, cpu_s=120)
-    r2, o2, _ = compile_font(dbg["fontc"], source, wd, name="dbg", threads=2, timeout=1800, cpu_s=600)
+    # component probes also go through the builds that restructure glyphs: a value that the default build decomposes away may survive
+    # where contours are moved into a component or components are flattened
+    args = []
+    try:
+        bnd = json.load(open(os.path.join(os.path.dirname(source), "manifest.json")))["boundary"]
+    except Exception:  # noqa
+        bnd = {}
+    if bnd.get("mixed"):
+        args = COMPONENT_ARGS[i % 2]  # an outline of its own: kept as a glyph with components only when simple glyphs are not preferred
+    elif bnd.get("kind") in ("comp-scale", "comp-offset"):
+        args = COMPONENT_ARGS[i % len(COMPONENT_ARGS)]
+    res["args"] = args
+    r1, o1, cmd = compile_font(bins["fontc"], source, wd, args=args, name="rel", threads=2, timeout=900, cpu_s=120)
+    r2, o2, _ = compile_font(dbg["fontc"], source, wd, args=args, name="dbg", threads=2, timeout=1800, cpu_s=600)
     res.update(cmd=cmd, rel=classify(r1, o1), dbg=classify(r2, o2), rel_err=r1.stderr[-300:], dbg_err=r2.stderr[-300:], fonts=[o1, o2])
     if res["rel"] == "font" and res["dbg"] == "font":
         res["same_bytes"] = common.sha256_file(o1) == common.sha256_file(o2)
@@ -144,7 +158,7 @@ def run(tier):
     chk = Check("C19", tier)
     bins = common.build("rel", ("fontc", "voracle"))
     dbg = common.build("dbg", ("fontc",))
-    n = 48 if tier == "quick" else 900
+    n = 64 if tier == "quick" else 1200
     srcs = gensrc.sources_for("C19", chk, n)
     tally = {}
     samples = []
